@@ -624,13 +624,9 @@ func (s *sim) doStop() {
 	if b.act.OneShell && b.goneFull > 0 {
 		// the one shell has come and gone and every client has left: the server
 		// finishes by itself, with the sentinel main takes for success
+		// (always the full twelve seconds: net/http's shutdown poll has random
+		// jitter, and the simulated clock must not depend on it)
 		for i := 0; i < 24; i++ {
-			s.mu.Lock()
-			done := b.doRet
-			s.mu.Unlock()
-			if done {
-				break
-			}
 			s.sleep(500 * time.Millisecond)
 		}
 		s.mu.Lock()
@@ -648,14 +644,8 @@ func (s *sim) doStop() {
 	}
 	b.cancel()
 	b.stopped = true
-	for i := 0; i < 200; i++ {
-		s.sleep(100 * time.Millisecond)
-		s.mu.Lock()
-		done := b.doRet && b.iobRet
-		s.mu.Unlock()
-		if done {
-			break
-		}
+	for i := 0; i < 40; i++ {
+		s.sleep(500 * time.Millisecond)
 	}
 	s.mu.Lock()
 	done := b.doRet && b.iobRet
